@@ -282,6 +282,11 @@ class Server(Script):
                ('server_port', 'u16'), ('next_state', 'VI')]
         self.handshake = refproto.decode_fields(lay, payload)
         ns = self.handshake['next_state']
+        if self.spec.get('adopt_version'):
+            import minecraft
+            pv = self.handshake['protocol_version']
+            if pv in minecraft.SUPPORTED_PROTOCOL_VERSIONS:
+                self.version = pv
         if ns == 1:
             self.state = 'status'
         elif ns == 2:
